@@ -78,17 +78,36 @@ PROPS["C09"] = {
 }
 
 # ---------------------------------------------------------------- root package kernels
+_EXTRAS = {"pkg/ringbuffer": "extra/ringbuffer", "internal/asyncprocessor": "extra/asyncprocessor"}
 PROPS["C17"] = {
     "claimed": False, "level_text": "tbd", "level_note": "tbd",
-    "runs": [R("admission", ".", "root", ["ZzC17Admission"], params={"GOSTUB": 1})],
+    "runs": [R("admission", ".", "root", ["ZzC17Admission"], params={"GOSTUB": 1}, extras=_EXTRAS)],
 }
+_EXTRAS = {"pkg/ringbuffer": "extra/ringbuffer", "internal/asyncprocessor": "extra/asyncprocessor"}
 PROPS["C18"] = {
     "claimed": False, "level_text": "tbd", "level_note": "tbd",
-    "runs": [R("start-validation", ".", "root", ["ZzC18ServerStart", "ZzC18ClientStart"], params={"GOSTUB": 1})],
+    "runs": [
+        R("start-validation", ".", "root", ["ZzC18ServerStart", "ZzC18ClientStart"], params={"GOSTUB": 1}, extras=_EXTRAS),
+        R("write-paths", ".", "root", ["ZzC18ClientWriteRTP", "ZzC18StreamWriteRTP", "ZzC18SessionWriteRTP", "ZzC18WriteRTCP"], params={"GOSTUB": 1}, extras=_EXTRAS,
+          quick_params={"P": 12, "MAXPS": 36}, thorough_params={"P": 40, "MAXPS": 80, "NREP": 8}),
+    ],
+}
+PROPS["C01"] = {
+    "claimed": False, "level_text": "tbd", "level_note": "tbd",
+    "runs": [
+        R("write-paths", ".", "root", ["ZzC18ClientWriteRTP", "ZzC18StreamWriteRTP", "ZzC18SessionWriteRTP"], params={"GOSTUB": 1}, extras=_EXTRAS,
+          quick_params={"P": 12, "MAXPS": 36}, thorough_params={"P": 40, "MAXPS": 80, "NR": 3}),
+    ],
+}
+PROPS["C19"] = {
+    "claimed": False, "level_text": "tbd", "level_note": "tbd",
+    "runs": [
+        R("udp-filters", ".", "root", ["ZzC19ServerUDPFilter", "ZzC19ClientUDPFilter"], params={"GOSTUB": 1}, extras=_EXTRAS),
+    ],
 }
 PROPS["C20"] = {
     "claimed": False, "level_text": "tbd", "level_note": "tbd",
-    "runs": [R("split", ".", "root", ["ZzC20Split"], params={"GOSTUB": 1}, quick_params={"PL": 6, "QL": 6}, thorough_params={"PL": 10, "QL": 10})],
+    "runs": [R("split", ".", "root", ["ZzC20Split"], params={"GOSTUB": 1}, extras=_EXTRAS, quick_params={"PL": 6, "QL": 6}, thorough_params={"PL": 10, "QL": 10})],
 }
 
 # ---------------------------------------------------------------- C14
